@@ -5,6 +5,10 @@ HERE = os.path.dirname(os.path.abspath(__file__))
 ALL = ["C%02d" % i for i in range(1, 21)]
 
 CHECKS = {
+ "C08": dict(level="exploration", design="DESIGN.md 3/C08",
+   text="differential monitor on real processes: a leader (+ follower) with snapshot threshold 10/25/60 receives >= 4n writes (configs in several namespaces, users) so that >= 3 compactions happened; a node then joins for the first time or a stopped follower rejoins; the scenario only counts when the follower's own log shows that a snapshot was installed; within 30 s and again after a restart of the follower every config (content, md5, type), listing totals, namespaces, users and the raft membership must equal the leader's",
+   note="scenarios without an observed snapshot install are inconclusive and retried with a longer history; which of the raft core's install triggers fired is not observable",
+   technique="runtime differential monitoring (follower vs leader over HTTP) with observed snapshot installation"),
  "C09": dict(level="exploration", design="DESIGN.md 3/C09",
    text="history + executable model on a stand-alone ConfigActor (namespace actor injected): seeded histories of ConfigAdd / ConfigRemove / SetFullValue / SetTmpValue over 3 tenants x 3 groups x 6 dataIds (hot keys > 100 publishes, empty / large / non-ASCII contents), GET + history after every op, every ~20 ops a sweep paging every endpoint-producible filter family at page sizes 1/2/7/100; reference model in Rust (lenient where the property is silent); failing histories shrunk by re-running the real code; thinner second layer through the real binary's HTTP API",
    note="parameter shapes no endpoint can produce are diagnostics, not violations; fuzzy filters = substring containment",
@@ -61,6 +65,10 @@ CHECKS = {
    text="same crash-image rig on histories biased to save_hard_state / SaveMember / AddNodeAddr interleaved with the other writers of the index file and reopen; at every journal prefix the recovered term/vote must be the last acknowledged (or a later submitted) value, membership and addresses the last acknowledged value with at most the one write the index actor may still have in flight",
    note="term/vote strict; membership/address acknowledgements are 'scheduled' acknowledgements in the store's API (one-write lag allowed); final images double as the quiescent reopen comparison",
    technique="fault enumeration over a syscall-level write journal + recovery by the real code + marker-derived oracle"),
+ "C06": dict(level="exploration", design="DESIGN.md 3/C06",
+   text="history checker on a real 3-process cluster: 6-12 concurrent clients publish / remove unique values through random nodes over HTTP and gRPC (register keys and append keys whose server-side history acts as an append-only list) while a seeded nemesis kills / restarts / SIGSTOPs leader and followers (both regimes: before and after the first leader change); every call recorded at the client boundary with call/return times, timed-out calls stay open; role/term time line from the metrics endpoint; after healing: bounded convergence (30 s), equality across nodes, no acknowledged write lost or present on some nodes only, reads return written values, append histories identical / ordered / ids increasing; plus single-node early-publish cases",
+   note="network partitions between live processes not simulated (SIGSTOP only); acknowledging-node classification limited by 0.1 s sampling; bounded-progress restatement of 'eventually'",
+   technique="runtime monitoring of recorded client histories (offline checker) under process-level fault injection"),
  "C07": dict(level="exploration", design="DESIGN.md 3/C07",
    text="three-way differential monitor: one seeded committed request sequence (all state-machine ClientRequest kinds) is applied through the leader path (append + apply_entry_to_state_machine per entry), the follower path (replicate_to_log + replicate_to_state_machine in random batch splits) and the start-up replay path (restart of the follower's directory) of raft-idle in-process nodes; the three dumps taken through the public actor queries must be equal",
    note="NodeAddr/Members left out (C05); timestamps/health excluded; trusts mailbox-order barriers (one query per component actor) before dumping",
